@@ -306,6 +306,12 @@ func scriptServers(c creds) {
 		case "invalid-session":
 			return vkit.Reply{Status: 401}
 		default:
+			// "refused-<status>": the endpoint refuses the session it was shown with that status
+			var status int
+			if _, err := fmt.Sscanf(call.Header.Get("X-Session"), "refused-%d", &status); err == nil {
+				return vkit.Reply{Status: status}
+			}
+
 			return vkit.Reply{Status: 500}
 		}
 	})
@@ -430,7 +436,7 @@ func TestFallbackOnlyOnMissingCredentialsOrOptIn(t *testing.T) {
 		c := creds{
 			SchemeCase: rapid.SampledFrom([]string{"", "", "", "lower", "upper"}).Draw(t, "schemeCase"),
 			Authz:      rapid.SampledFrom(authzKinds).Draw(t, "authz"),
-			Session:    rapid.SampledFrom([]string{"none", "none", "valid", "invalid", "remotefail"}).Draw(t, "session"),
+			Session:    rapid.SampledFrom([]string{"none", "none", "valid", "invalid", "remotefail", "refused-400", "refused-403", "refused-404", "refused-422"}).Draw(t, "session"),
 			JWKS:       rapid.SampledFrom([]string{"ok", "ok", "ok", "fail"}).Draw(t, "jwks"),
 			Carrier:    rapid.SampledFrom([]string{"", "", "", "query", "query-name-escaped", "form", "form-GET", "json-body"}).Draw(t, "carrier"),
 		}
@@ -514,6 +520,11 @@ func TestFallbackOnlyOnMissingCredentialsOrOptIn(t *testing.T) {
 			lr.Headers = append(lr.Headers, vkit.HeaderKV{Name: "X-Session", Value: "invalid-session"})
 		case "remotefail":
 			lr.Headers = append(lr.Headers, vkit.HeaderKV{Name: "X-Session", Value: "boom"})
+		default:
+			if strings.HasPrefix(c.Session, "refused-") {
+				lr.Headers = append(lr.Headers, vkit.HeaderKV{Name: "X-Session", Value: c.Session})
+				vkit.S.Label("identity_endpoint_" + c.Session)
+			}
 		}
 
 		resp, err := w.Send(vkit.EntryDecision, lr, nil)
